@@ -68,6 +68,7 @@ type Job struct {
 	Race         bool
 	NoLeakCheck  bool
 	MaxSteps     int64
+	Solver       string // primary solver for this job: "" / "z3" / "cvc5"
 }
 
 // PathSummary is kept for evidence samples.
@@ -447,6 +448,9 @@ func (i *interpreter) runPath(job *Job, prefix []Decision) (p *pathState) {
 		i.race = newRaceMonitor()
 	}
 	i.slv.ctx = i.tc
+	if want := job.Solver; (want == "" && i.slv.kind != "z3") || (want != "" && want != i.slv.kind) {
+		i.slv.use(want)
+	}
 	if i.slv.dead {
 		i.slv.close()
 		i.slv.start()
